@@ -157,7 +157,7 @@ def fixedModel : Bool := true
 
 * `tr <id> name=<scenario> init=<ns> max=<ns>`
 * `ev <id> k=<n> t=<µs> e=<kind> iid=<i> dn=<dn> ...` with kinds
-  `enter`, `run names= res=ok|err|panic`, `sig s=0|1 res=ok|panic`, `ctxdone`, `exit how=nil|ctx|other panic=0|1`,
+  `enter`, `run names= res=ok|err|panic`, `sig s=0|1 res=ok|panic`, `ctxdone`, `exit how=nil|ctx|other panic=0|1 live=0|1`,
   `settled ok= why=`, `window ..` (cancel-inside-the-back-off-window scenarios), `cancelreq`, `stopped ok=`, `quiesced`, `fin`
 * `end <id>`
 
@@ -187,6 +187,8 @@ structure Rec where
   sigDone : Bool := false
   sawCtx : Bool := false
   ancEntered : Bool := false
+  liveExit : Bool := false      -- its own context was not cancelled when it left
+  tainted : Bool := false       -- something else may have cancelled its context before its exit was processed
 deriving Repr
 
 structure St where
@@ -304,6 +306,15 @@ def updRec (st : St) (iid : Nat) (f : Rec → Rec) : St := { st with recs := st.
 an error that is not a context error, a panic, or a plain return of a service that has not signalled Done -/
 def certainDeath (r : Rec) : Bool := r.exited && (r.how = "other" || (r.how = "nil" && !r.sigDone))
 
+/-- The service left with an error whose innermost cause is `context.Canceled` while its OWN context was live
+(e.g. the error of a sub-context it cancelled itself).  Unless something else cancels its context before the
+processor gets to its exit, that is a failure, not a cancellation. -/
+def ctxLiveDeath (r : Rec) : Bool := r.exited && r.how = "ctx" && r.liveExit
+
+/-- An exit that cannot cancel anybody else's context: a completion (Done, nil), or a genuinely cancelled
+service answering with the context error (classified CANCELED: nothing is propagated). -/
+def harmlessExit (r : Rec) : Bool := r.exited && ((r.sigDone && r.how = "nil") || (r.sawCtx && r.how = "ctx"))
+
 /-- Spec clauses evaluated on the log alone. -/
 def specEv (st : St) (kind : String) (iid : Nat) (dn : DN) (t : Nat) (fs : List String) : St :=
   let id := st.id
@@ -317,7 +328,7 @@ def specEv (st : St) (kind : String) (iid : Nat) (dn : DN) (t : Nat) (fs : List 
           setV st s!"spec {id} two-instances-live {showDN dn} started (instance {iid}) while instance {p.iid} of the same service had not returned (scenario {st.name})"
         else if p.sigDone && p.how = "nil" && !p.ancEntered then
           setV st s!"spec {id} done-restarted {showDN dn} had signalled Done and returned nil, yet was started again without any ancestor restarting"
-        else if certainDeath p && !p.ancEntered && (t + 1000) * 1000 < p.tExit * 1000 + st.P.initial / 2 then
+        else if (certainDeath p || (ctxLiveDeath p && !p.tainted)) && !p.ancEntered && (t + 1000) * 1000 < p.tExit * 1000 + st.P.initial / 2 then
           setV st s!"spec {id} restart-before-backoff {showDN dn} died at {p.tExit}us and was started again at {t}us, sooner than half the initial back-off interval ({st.P.initial}ns)"
         else st
     -- a restarting ancestor is the only other legitimate reason for a restart
@@ -330,11 +341,20 @@ def specEv (st : St) (kind : String) (iid : Nat) (dn : DN) (t : Nat) (fs : List 
   | "ctxdone" =>
     { updRec st iid (fun r => { r with sawCtx := true }) with oblig := st.oblig.filter (·.1 ≠ iid) }
   | "exit" =>
-    let st := { updRec st iid (fun r => { r with exited := true, how := (kv fs "how").getD "?", tExit := t }) with oblig := st.oblig.filter (·.1 ≠ iid) }
+    let st := { updRec st iid (fun r => { r with exited := true, how := (kv fs "how").getD "?", tExit := t,
+                                                  liveExit := kvNat fs "live" == some 1 }) with oblig := st.oblig.filter (·.1 ≠ iid) }
     match st.recs.find? (fun r => r.iid = iid) with
     | none => st
     | some me =>
-      if !certainDeath me || st.cancelReq then st else
+      -- Whose exit is still waiting to be processed (exited, its dn not started again)?  Any of those that is not
+      -- harmless may cancel contexts when the processor gets to it; so may this exit for the others.
+      let waiting (r : Rec) : Bool := r.exited && r.iid ≠ iid && !r.ancEntered && (latest st r.dn).map (·.iid) == some r.iid
+      let taintMe := st.cancelReq || st.recs.any fun r => waiting r && !harmlessExit r
+      let recs' := st.recs.map (fun r =>
+        if r.iid = iid then { r with tainted := taintMe }
+        else if waiting r && !harmlessExit me then { r with tainted := true } else r)
+      let st := { st with recs := recs' }
+      if !(certainDeath me || ctxLiveDeath me) || st.cancelReq then st else
       -- "it and the members of its group are cancelled": everything running below it, and below its group siblings
       let sibs : List DN := match dn.getLast? with
         | none => []
@@ -355,7 +375,7 @@ def specEv (st : St) (kind : String) (iid : Nat) (dn : DN) (t : Nat) (fs : List 
         let d := match st.recs.find? (fun r => r.iid = i) with | some r => showDN r.dn | none => "?"
         setV st s!"spec {id} group-not-cancelled {who} died but the context of {d} (instance {i}), which belongs to it or to its group, was never cancelled"
       | [] => st
-  | "cancelreq" => { st with cancelReq := true, tCancel := t }
+  | "cancelreq" => { st with cancelReq := true, tCancel := t, recs := st.recs.map fun r => if r.exited then { r with tainted := true } else r }
   | "stopped" =>
     if (kv fs "ok") != some "1" then setV st s!"spec {id} not-stopped services were still running long after the supervisor context was cancelled ({(kv fs "live").getD "?"} left)" else st
   | "quiesced" => { st with quiesced := true }
